@@ -20,6 +20,7 @@ Fixpoint orth_geom (g : geom) : Prop :=
       wf_mat np G /\ length G = nf /\ length Ginv = np /\
       forall f, length f = nf -> qmatvec Ginv f = qmattvec np G f
   | GScale c cinv g' => c = cinv /\ orth_geom g'
+  | GStepX _ cnt => Forall (fun k => k = 1%nat) cnt
   end.
 
 (* function values are plain vectors (no image at the base) *)
@@ -47,6 +48,7 @@ Fixpoint idlike_geom (g : geom) : Prop :=
   | GStep cnt => Forall (fun k => k = 1%nat) cnt
   | GLin _ _ _ _ => False
   | GScale c cinv g' => c = 1 /\ cinv = 1 /\ idlike_geom g'
+  | GStepX _ cnt => Forall (fun k => k = 1%nat) cnt
   end.
 
 (* ---------- small facts ---------- *)
@@ -89,6 +91,12 @@ Proof.
   intros H; revert f; induction H as [|k cnt Hk H IH]; intros [|a f] Hf; simpl in Hf; try discriminate; [reflexivity|].
   subst. cbn [step_mean firstn skipn qsum fold_right]. rewrite IH by lia. f_equal.
   rewrite Qcdiv_1_r. ring.
+Qed.
+
+Lemma step_ext_ones mx cnt f : Forall (fun k => k = 1%nat) cnt -> length f = length cnt -> step_ext mx cnt f = f.
+Proof.
+  intros H; revert f; induction H as [|k cnt Hk H IH]; intros [|a f] Hf; simpl in Hf; try discriminate; [reflexivity|].
+  subst. cbn [step_ext firstn skipn ext_of fold_left]. rewrite IH by lia. reflexivity.
 Qed.
 
 (* ---------- F-order reshape is orthogonal ---------- *)
@@ -135,7 +143,7 @@ Qed.
 (* ---------- orthogonal geometries have mutually transposed maps ---------- *)
 Lemma orth_geom_adjoint_pair g : orth_geom g -> geom_adjoint_pair g.
 Proof.
-  induction g as [n | r c o | cnt | np nf G Ginv | c cinv g IH]; intros Ho p fl Hp Hf;
+  induction g as [n | r c o | cnt | np nf G Ginv | c cinv g IH | mx cnt]; intros Ho p fl Hp Hf;
     cbn [par_dim fun_dim] in Hp, Hf.
   - (* GId *)
     exists p, fl. cbn [p2f f2p funval par_dim fun_dim]. repeat split; try assumption.
@@ -170,12 +178,18 @@ Proof.
     + rewrite qvscale_length. exact L1.
     + exact L2.
     + rewrite qdot_vscale_l. rewrite qdot_vscale_r in D. exact D.
+  - (* GStepX, one node per step: max = min = the node *)
+    cbn [orth_geom] in Ho. rewrite (ones_sum cnt Ho) in Hf.
+    exists p, fl. cbn [p2f f2p funval par_dim fun_dim].
+    rewrite Hp, Nat.eqb_refl, (ones_sum cnt Ho), Hf, Nat.eqb_refl, (ones_positive cnt Ho).
+    cbn [andb]. rewrite (step_expand_ones cnt p Ho Hp), (step_ext_ones mx cnt fl Ho Hf).
+    repeat split; assumption.
 Qed.
 
 (* ---------- identity-like geometries have idempotent conversions ---------- *)
 Lemma idlike_geom_idem g : idlike_geom g -> idem_geom g.
 Proof.
-  induction g as [n | r c o | cnt | np nf G Ginv | c cinv g IH]; intros Hi.
+  induction g as [n | r c o | cnt | np nf G Ginv | c cinv g IH | mx cnt]; intros Hi.
   - split; intros v w H; cbn [p2f f2p] in *; congruence.
   - split; intros v w H; cbn [p2f f2p] in *.
     + destruct v as [l | r' c' l].
@@ -199,11 +213,22 @@ Proof.
     + destruct (p2f g v) as [F|] eqn:E; [|discriminate]. cbn [option_map] in H. rewrite vmap_scale_1 in H.
       inversion H; subst. rewrite (IP v w E). cbn [option_map]. rewrite vmap_scale_1. reflexivity.
     + rewrite vmap_scale_1 in *. exact (IF v w H).
+  - cbn [idlike_geom] in Hi. split; intros v w H; cbn [p2f f2p] in *.
+    + destruct v as [l | r' c' l]; [|discriminate].
+      destruct (length l =? length cnt)%nat eqn:E; [|discriminate]. apply Nat.eqb_eq in E.
+      inversion H; subst. rewrite (step_expand_ones cnt l Hi E). apply Nat.eqb_eq in E. rewrite E.
+      apply Nat.eqb_eq in E. rewrite (step_expand_ones cnt l Hi E). reflexivity.
+    + destruct v as [l | r' c' l]; [|discriminate].
+      destruct ((length l =? fold_right Nat.add 0 cnt)%nat && forallb (fun k => (0 <? k)%nat) cnt) eqn:E; [|discriminate].
+      apply andb_true_iff in E as [E1 E2]. apply Nat.eqb_eq in E1. rewrite (ones_sum cnt Hi) in E1.
+      inversion H; subst. rewrite (step_ext_ones mx cnt l Hi E1).
+      rewrite (ones_sum cnt Hi), E2. apply Nat.eqb_eq in E1. rewrite E1. cbn [andb].
+      apply Nat.eqb_eq in E1. rewrite (step_ext_ones mx cnt l Hi E1). reflexivity.
 Qed.
 
 Lemma idlike_geom_orth g : idlike_geom g -> orth_geom g.
 Proof.
-  induction g as [n | r c o | cnt | np nf G Ginv | c cinv g IH]; cbn [idlike_geom orth_geom]; intros H; try exact H; try exact I.
+  induction g as [n | r c o | cnt | np nf G Ginv | c cinv g IH | mx cnt]; cbn [idlike_geom orth_geom]; intros H; try exact H; try exact I.
   - contradiction.
   - destruct H as (-> & -> & H). split; [reflexivity | apply IH; exact H].
 Qed.
